@@ -441,6 +441,7 @@ class BaseParser:
         result = {}
         dependencies = set()
         unprovided_fields = set()
+        provided_fields = set()
         options = context.options
 
         for key, value in data.items():
@@ -453,6 +454,7 @@ class BaseParser:
                 continue
 
             name = field.attname if as_attname else field.name
+            provided_fields.add(name)
 
             if field.is_no_input(value, options=options):
                 # no input field does not take input from __init__
@@ -487,6 +489,10 @@ class BaseParser:
             for key, field in self.fields.items():
                 name = field.attname if as_attname else field.name
                 if name in result:
+                    continue
+                if name in provided_fields:
+                    # the input did provide this field (its value was rejected, excluded or not taken as input):
+                    # it is not absent, as in the field-first strategy
                     continue
                 if excluded_keys and name in excluded_keys:
                     continue
